@@ -24,9 +24,15 @@ import (
 	"github.com/lianxiangcloud/linkchain/mempool"
 	"github.com/lianxiangcloud/linkchain/types"
 
+	"github.com/lianxiangcloud/linkchain/libs/log"
+	"github.com/lianxiangcloud/linkchain/libs/ser"
+
 	"lvharness/appsim"
+	"lvharness/csim"
 	"lvharness/hx"
 )
+
+var registerMsgs sync.Once
 
 func init() {
 	mempool.GoodTxDropTime = 10000 * time.Hour
@@ -55,6 +61,11 @@ type exec struct {
 	sink      bool
 	gate      *gateApp
 	rep       *appsim.Stack // cold replica: same chain, a mempool that never saw a submission (pool ... replica=1)
+	sw        *csim.FakeSwitch
+	react     *mempool.MempoolReactor
+	peer      *csim.FakePeer
+	avail     bool
+	privs     []types.PrivValidator // validators whose signatures make a MultiSignAccountTx (pool ... vals=n)
 }
 
 // gateApp is the application as the mempool sees it (mempool.App): the real LinkApplication, except that the BASIC check of
@@ -199,8 +210,8 @@ func (e *exec) pendingAll() []int {
 }
 
 type view struct {
-	good, utxo, queued []int
-	qn                 int
+	good, utxo, spec, queued []int
+	qn                       int
 }
 
 func (e *exec) view() view {
@@ -211,7 +222,7 @@ func (e *exec) view() view {
 		// cannot happen sequentially; keep the dump total
 		ng, nu = len(all), 0
 	}
-	v.good, v.utxo = all[:ng], all[ng:ng+nu]
+	v.good, v.utxo, v.spec = all[:ng], all[ng:ng+nu], all[ng+nu:]
 	in := map[int]bool{}
 	for _, id := range all {
 		in[id] = true
@@ -252,7 +263,54 @@ func (e *exec) committedLine() string {
 
 func (e *exec) dump() string {
 	v := e.view()
-	return fmt.Sprintf("g=%s u=%s q=%s qn=%d %s", ids(v.good), ids(v.utxo), ids(v.queued), v.qn, e.specLine())
+	return fmt.Sprintf("g=%s u=%s q=%s qn=%d %s s=%s mn=%d,%d ki=%s av=%d", ids(v.good), ids(v.utxo), ids(v.queued), v.qn, e.specLine(),
+		ids(v.spec), e.s.App.GetNonce(types.MultiSignNonceAddr), e.s.App.GetLatestStateDB().GetNonce(types.MultiSignNonceAddr), e.keyImageIndex(v), e.drainAvailable())
+}
+
+// keyImageIndex compares the pool's key-image index (KeyImageExists) with the images of the transactions in utxoTxs, over
+// every key image this case has ever built: "ok", or how many are stale (indexed, no pooled spend) / missing (pooled spend, not indexed).
+func (e *exec) keyImageIndex(v view) string {
+	pooled := map[lktypes.Key]bool{}
+	for _, id := range v.utxo {
+		if id < 0 || id >= len(e.txs) {
+			continue
+		}
+		if u, ok := e.txs[id].(*types.UTXOTransaction); ok {
+			for _, in := range u.Inputs {
+				if ui, ok := in.(*types.UTXOInput); ok {
+					pooled[ui.KeyImage] = true
+				}
+			}
+		}
+	}
+	stale, missing := 0, 0
+	for img := range e.imgs {
+		has := e.mp.KeyImageExists(img)
+		if has && !pooled[img] {
+			stale++
+		}
+		if !has && pooled[img] {
+			missing++
+		}
+	}
+	if stale == 0 && missing == 0 {
+		return "ok"
+	}
+	return fmt.Sprintf("stale:%d,missing:%d", stale, missing)
+}
+
+// drainAvailable: 1 if the TxsAvailable channel held a notification (it is taken out), else 0
+func (e *exec) drainAvailable() int {
+	ch := e.mp.TxsAvailable()
+	if ch == nil {
+		return 0
+	}
+	select {
+	case <-ch:
+		return 1
+	default:
+		return 0
+	}
 }
 
 func (e *exec) submit(kind string, from int, nonce uint64, tx types.Tx, err error, toks []string) string {
@@ -287,9 +345,25 @@ func (e *exec) Exec(op string) string {
 			e.wallets = append(e.wallets, appsim.NewWallet(i))
 		}
 		c := cfg.DefaultMempoolConfig()
-		c.Broadcast = false
-		c.RemoveFutureTx = false
+		// bcast=1: AddTx hands every admitted tx to the broadcast routine (channel of size 1: also its "full" branch); the
+		// fake switch swallows the announcements
+		c.Broadcast = argI(toks, "bcast", 0) == 1
+		c.BroadcastChanSize = 1
+		// rmfuture=1: promoteExecutables caps every sender's queue at acctq entries (highest nonces dropped) and the 10 s
+		// eviction tick drops queues idle for Lifetime (lifens=: Lifetime in ns; default 10^4 h = never)
+		c.RemoveFutureTx = argI(toks, "rmfuture", 0) == 1
+		c.AccountQueue = int(argI(toks, "acctq", 1000))
 		c.Lifetime = 10000 * time.Hour
+		if ns := argI(toks, "lifens", 0); ns > 0 {
+			c.Lifetime = time.Duration(ns)
+		}
+		c.ReceiveP2pTx = argI(toks, "p2ptx", 1) == 1
+		c.SpecSize = int(argI(toks, "specsize", 100))
+		// droptime=0: every pending tx is older than GoodTxDropTime at the next Update (filterTxs drops what the block did not take)
+		mempool.GoodTxDropTime = 10000 * time.Hour
+		if argI(toks, "droptime", -1) == 0 {
+			mempool.GoodTxDropTime = 0
+		}
 		c.Size = int(argI(toks, "size", 3000))
 		c.FutureSize = int(argI(toks, "future", 100000))
 		c.UTXOSize = int(argI(toks, "utxosize", 1000))
@@ -297,11 +371,23 @@ func (e *exec) Exec(op string) string {
 		e.cfg = c
 		o := appsim.Opts{IsTrie: argI(toks, "trie", 1) == 1, Accounts: e.accts, Balance: units(argI(toks, "bal", 1000000000)),
 			Tokens: map[common.Address]*big.Int{e.tok: units(argI(toks, "tbal", 1000))}}
+		if argI(toks, "code", 0) == 1 {
+			o.Code = map[common.Address][]byte{appsim.ContractAddr: appsim.TestContract}
+		}
+		e.avail = argI(toks, "avail", 0) == 1
 		o.Mempool = func(a *app.LinkApplication) types.Mempool {
-			mp := mempool.NewMempool(c, 0, nil)
+			e.sw = csim.NewFakeSwitch()
+			mp := mempool.NewMempool(c, 0, e.sw)
 			e.gate = &gateApp{LinkApplication: a}
 			mp.SetApp(e.gate)
+			if e.avail {
+				mp.EnableTxsAvailable()
+			}
 			e.mp = mp
+			registerMsgs.Do(mempool.RegisterMempoolMessages)
+			e.react = mempool.NewMempoolReactor(c, mp)
+			e.react.SetLogger(log.NewNopLogger())
+			e.peer = csim.NewFakePeer("peer-1")
 			return mp
 		}
 		s, err := appsim.NewStack(o)
@@ -309,6 +395,15 @@ func (e *exec) Exec(op string) string {
 			return "err " + err.Error()
 		}
 		e.s = s
+		if n := int(argI(toks, "vals", 0)); n > 0 {
+			var vals []*types.Validator
+			for i := 0; i < n; i++ {
+				v, pv := types.RandValidator(false, 1)
+				vals = append(vals, v)
+				e.privs = append(e.privs, pv)
+			}
+			s.App.SetLastChangedVals(0, vals)
+		}
 		if argI(toks, "replica", 0) == 1 {
 			ro := o
 			ro.Mempool = nil
@@ -337,7 +432,27 @@ func (e *exec) Exec(op string) string {
 			data = make([]byte, n) // oversized payload (zero bytes)
 			gas += uint64(n) * 100
 		}
-		tx := types.NewTransaction(nonce, e.accts[to].Addr, amount, gas, big.NewInt(types.ParGasPrice), data)
+		// admission filters (IllegalGasLimitOrGasPrice / IntrinsicGas / CheckBasicWithState): explicit gas limit, nz non-zero
+		// and z zero data bytes, recipient = the genesis contract (tocode=1) or none (create=1)
+		if g := argI(toks, "gas", -1); g >= 0 {
+			gas = uint64(g)
+		}
+		if nz, z := argI(toks, "nz", 0), argI(toks, "z", 0); nz+z > 0 {
+			data = make([]byte, nz+z)
+			for i := int64(0); i < nz; i++ {
+				data[i] = 0x11
+			}
+		}
+		toAddr := e.accts[to].Addr
+		if argI(toks, "tocode", 0) == 1 {
+			toAddr = appsim.ContractAddr
+		}
+		var tx *types.Transaction
+		if argI(toks, "create", 0) == 1 {
+			tx = types.NewContractCreation(nonce, amount, gas, big.NewInt(types.ParGasPrice), data)
+		} else {
+			tx = types.NewTransaction(nonce, toAddr, amount, gas, big.NewInt(types.ParGasPrice), data)
+		}
 		err := tx.Sign(types.GlobalSTDSigner, e.accts[from].Key)
 		return e.submit("xfer", from, nonce, tx, err, toks)
 	case "xfertok":
@@ -409,6 +524,17 @@ func (e *exec) Exec(op string) string {
 			}
 		}
 		return e.submit(toks[0], -1, 0, tx, err, toks)
+	case "msig": // a MultiSignAccountTx (special lane): nonce of the fixed multi-sign address, signed by the first `sigs` validators
+		nonce := uint64(argI(toks, "nonce", 0))
+		info := &types.MultiSignMainInfo{AccountNonce: nonce, SupportTxType: types.TxUpdateValidatorsType,
+			SignersInfo: types.SignersInfo{MinSignerPower: int32(20 + argI(toks, "variant", 0)), Signers: []*types.SignerEntry{
+				{Power: 10, Addr: common.HexToAddress("0x1")}, {Power: 10, Addr: common.HexToAddress("0x2")}, {Power: 10, Addr: common.HexToAddress("0x3")}}}}
+		tx := types.NewMultiSignAccountTx(info, nil)
+		var err error
+		for i := 0; i < int(argI(toks, "sigs", int64(len(e.privs)))) && i < len(e.privs) && err == nil; i++ {
+			err = tx.Sign(e.privs[i])
+		}
+		return e.submit("msig", -1, nonce, tx, err, toks)
 	case "resub": // the same transaction object again
 		id := int(argI(toks, "id", 0))
 		if id < 0 || id >= len(e.txs) {
@@ -460,6 +586,18 @@ func (e *exec) Exec(op string) string {
 		return ans
 	case "conc":
 		return e.conc(toks)
+	case "evictwait":
+		// wait for the pool's own 10 s eviction tick (rmfuture=1 and a tiny Lifetime): every queued transaction goes
+		deadline := time.Now().Add(13 * time.Second)
+		for time.Now().Before(deadline) {
+			if _, _, q := e.mp.Stats(); q == 0 {
+				break
+			}
+			time.Sleep(50 * time.Millisecond)
+		}
+		return "evicted " + e.dump()
+	case "recv":
+		return e.recv(toks)
 	case "window":
 		// AddTx(tx) is started on its own goroutine and paused between cache.Put and the basic check; in that window the
 		// consensus goroutine validates a (foreign) block holding exactly that transaction, on this stack and on the cold replica
@@ -750,4 +888,55 @@ func (e *exec) conc(toks []string) string {
 		return "conc viol=none"
 	}
 	return "conc viol=" + strings.Join(vs, ",")
+}
+
+// recv: a peer's message through MempoolReactor.Receive (decodeMsg + the message handler).  The reactor's own routines are
+// not started: what Receive queued in the receive cache is handed to Mempool.AddTx here, in order, exactly as
+// handleReceiveTx -> Mempool.add does, so that the outcome is deterministic.
+func (e *exec) recv(toks []string) string {
+	kind, _ := hx.Arg(toks, "kind")
+	id := int(argI(toks, "id", 0))
+	var bz []byte
+	var err error
+	switch kind {
+	case "garbage":
+		bz = []byte{0xde, 0xad, 0xbe, 0xef, byte(id)}
+	case "empty":
+		bz = []byte{}
+	case "niltx":
+		bz, err = ser.EncodeToBytesWithType(&mempool.TxMessage{})
+	case "notify", "request":
+		if id < 0 || id >= len(e.txs) {
+			return "notx"
+		}
+		k := mempool.TxHashNotify
+		if kind == "request" {
+			k = mempool.TxHashRequest
+		}
+		bz, err = ser.EncodeToBytesWithType(&mempool.TxHashMessage{Hashs: []common.Hash{e.txs[id].Hash()}, Kind: k})
+	default: // a transaction
+		if id < 0 || id >= len(e.txs) {
+			return "notx"
+		}
+		bz, err = ser.EncodeToBytesWithType(&mempool.TxMessage{Tx: e.txs[id]})
+	}
+	if err != nil {
+		return "encode=" + appsim.ErrClass(err)
+	}
+	stoppedBefore := len(e.sw.Stopped)
+	e.react.Receive(mempool.MempoolChannel, e.peer, bz)
+	var classes []string
+	l := e.react.GetRecvCache()
+	for el := l.Front(); el != nil; el = l.Front() {
+		l.Remove(el)
+		el.DetachPrev()
+		if m, ok := el.Value.(*mempool.RecieveMessage); ok {
+			classes = append(classes, addClass(e.mp.AddTx(m.PeerID, m.Tx)))
+		}
+	}
+	add := "-"
+	if len(classes) > 0 {
+		add = strings.Join(classes, ",")
+	}
+	return fmt.Sprintf("queued=%d stopped=%d add=%s %s", len(classes), len(e.sw.Stopped)-stoppedBefore, add, e.dump())
 }
